@@ -38,11 +38,14 @@ SHIM = ["-I", vlib.HARNESS + "/shim"]
 # fd = harness names of flow definitions A and B; data = block buffers may be fed after fd A/B;
 # opt = plain option (name, v1, v2); optfd = option merged into the output flow definition;
 # env = environment commands before allocation; dies = the type destroys itself as soon as
-# nobody holds it (no deliberate self-reference while it waits for something).
+# nobody holds it (no deliberate self-reference while it waits for something); incmd = the
+# command(s) of one input ({p} {id} {size} {t} {tm}: t = 100 * id, tm = 100 * (id - 1));
+# label = what names a flow for the flow tags ("letter": the A / B component of the definition
+# string, "hsize": the picture size - pipes that copy only the format of their input).
 def typ(name, cls="gen", src=None, **kw):
     d = dict(name=name, cls=cls, src=src, alloc=["new p0 " + name], fdp="p0", inp="p0", outp="p0",
              rel=["p0"], fd={"A": "bA", "B": "bB"}, data=True, opt=None, optfd=None, env=[],
-             dies=True, size=188, incmd="in {p} {id} {size}")
+             dies=True, size=188, incmd="in {p} {id} {size}", label="letter")
     d.update(kw)
     return d
 
@@ -124,7 +127,11 @@ TYPES = [
     typ("audio_merge", data=False, fd=sfd(), alloc=["newf p0 audio_merge sound.s16." + SATTR]),
     typ("audio_split", data=False, fd=sfd()),
     typ("audiocont", data=False, fd=sfd("f32"), alloc=["newf p0 audiocont sound.f32." + SATTR]),
-    typ("videocont", data=False, fd=PICFD),
+    # pictures on the selected input, one reference tick per picture (the output is the tick
+    # with the picture attached; only the FORMAT of the input's flow definition is copied)
+    typ("videocont", fd={"A": "x:pic.A. hsize=16 vsize=16 fps=25 pplanes=3", "B": "x:pic.B. hsize=32 vsize=32 fps=25 pplanes=3"},
+        alloc=["new p0 videocont", "setfdx p0 pic.R. fps=25", "sub p1 p0", "contin p1"], fdp="p1", inp="p1", rel=["p1", "p0"],
+        incmd=["inpic {p} {id} pts_sys={t}", "intick p0 {id} pts_sys={tm}"], label="hsize"),
     typ("play", data=False),
     typ("dejitter", "thru"),
     typ("sync", data=False, fd=PICFD),
@@ -280,10 +287,29 @@ def fd_defstring(v):
     return "block.%s.%s" % (body, "+" * (len(v) - 1 - len(body)))      # as harness fd_name() prints it
 
 
+T0 = 2700000000      # 100 s: well above the retention spans of the *cont pipes
+
+
+def in_lines(T, nin):
+    cmds = T["incmd"] if isinstance(T["incmd"], (list, tuple)) else [T["incmd"]]
+    return [c.format(p=T["inp"], id=nin, size=T["size"], t=T0 + 100 * nin, tm=T0 + 100 * (nin - 1)) for c in cmds]
+
+
+def flow_label(T, fl):
+    """the identity of a flow as the monitor compares it ("" = cannot be named)"""
+    if not fl or fl == "none":
+        return ""
+    if T["label"] == "hsize":
+        m = re.search(r"/h(\d+)$", fl)
+        return "h" + m.group(1) if m else ""
+    m = re.search(r"(?:^|\.)([AB])\.", fl.split("/")[0])
+    return m.group(1) if m else ""
+
+
 def concretise(T, steps):
     """steps: [(to, cmd, obs)] -> (lines, owner) where owner[i] = index of the
     step that harness line i belongs to (-1: set-up); None if the type cannot run it."""
-    lines = ["sink s1", "sink s2"] + list(T["env"])
+    lines = ["sink s1", "sink s2", "env fltag on"] + list(T["env"])
     owner = [-1] * len(lines)
     pol = {1: True, 2: True}
     nin = 0
@@ -312,7 +338,7 @@ def concretise(T, steps):
             if T["cls"] != "thru" and (not fd_ok or not T["data"]):
                 return None     # an upstream that obeys the statement never does this
             nin += 1
-            new = [T["incmd"].format(p=T["inp"], id=nin, size=T["size"])]
+            new = in_lines(T, nin)
         elif e == "GetFd":
             new = ["getfd %s" % T["outp"]]
         elif e == "Out":
@@ -337,8 +363,8 @@ def concretise(T, steps):
 
 
 # -------------------------------------------------------- harness output -> events
-def EV(e, p=0, s=0, k="", fd="", acc=False, die=()):
-    return {"e": e, "p": p, "s": s, "k": k, "fd": fd, "acc": acc, "die": list(die)}
+def EV(e, p=0, s=0, k="", fd="", acc=False, die=(), fl="", now=False):
+    return {"e": e, "p": p, "s": s, "k": k, "fd": fd, "acc": acc, "die": list(die), "fl": fl, "now": now}
 
 
 def pid(name):
@@ -350,7 +376,8 @@ def sid(name):
 
 
 RE_EV = re.compile(r"^ev (\S+) (\S+)(?: (.*))?$")
-RE_SFD = re.compile(r"^sink (s\d+) set_flow_def (\S+) (accept|reject)$")
+RE_SFD = re.compile(r"^sink (s\d+) set_flow_def (\S+) (accept|reject)(?: fl=(\S+))?$")
+RE_FL = re.compile(r" fl=(\S+)( flnow)?$")
 RE_SIN = re.compile(r"^sink (s\d+) input (u\d+) ")
 RE_SOT = re.compile(r"^sink (s\d+) (register|unregister|control)\b")
 RE_POUT = re.compile(r"^probe out (p\d+) (s\d+)$")
@@ -381,7 +408,7 @@ def parse_exec(T, lines, blocks):
                 allocated.append(pid(tok[1]))
         elif c in ("setfd", "setfdx"):
             add(EV("SetFd", pid(tok[1]), fd=tok[2]), li)
-        elif c in ("in", "ins"):
+        elif c in ("in", "ins", "inpic", "insound", "intick"):
             add(EV("In", pid(tok[1])), li)
         elif c == "getfd":
             add(EV("Cmd"), li)
@@ -412,13 +439,16 @@ def parse_exec(T, lines, blocks):
                 continue
             m = RE_SFD.match(l)
             if m:
-                add(EV("SinkFd", s=sid(m.group(1)), fd=m.group(2), acc=m.group(3) == "accept"), li)
+                add(EV("SinkFd", s=sid(m.group(1)), fd=m.group(2), acc=m.group(3) == "accept",
+                       fl=flow_label(T, m.group(4))), li)
                 continue
             m = RE_SIN.match(l)
             if m:
                 if m.group(2) == cur_in:
                     delivered = True
-                add(EV("SinkIn", s=sid(m.group(1))), li)
+                mf = RE_FL.search(l)
+                add(EV("SinkIn", s=sid(m.group(1)), fl=flow_label(T, mf.group(1)) if mf else "",
+                       now=bool(mf and mf.group(2))), li)
                 continue
             m = RE_SOT.match(l)
             if m:
@@ -529,8 +559,8 @@ def run_batch(ctx, binp, execs, chunk=400):
     return crashes
 
 
-FIELDS = {"Ev": ("p", "k", "fd"), "GotFd": ("p", "fd"), "New": ("p",), "Out": ("p", "s"), "SinkFd": ("s", "fd", "acc"),
-          "SinkIn": ("s",), "SinkReg": ("s",), "SinkUnreg": ("s",), "SinkCtl": ("s",), "End": ("die",)}
+FIELDS = {"Ev": ("p", "k", "fd"), "GotFd": ("p", "fd"), "New": ("p",), "Out": ("p", "s"), "SinkFd": ("s", "fd", "acc", "fl"),
+          "SinkIn": ("s", "fl", "now"), "SinkReg": ("s",), "SinkUnreg": ("s",), "SinkCtl": ("s",), "End": ("die",)}
 
 
 def trace_lines(x):
@@ -631,6 +661,9 @@ def describe(x, evi, prop):
 FIXED = ("sink", "env", "new", "newf", "newqsrc", "newqsink", "sub", "subf", "subin", "rel", "reset")
 
 
+FIXED_ALLOC = ("setfdx", "setfd", "contin", "opt")
+
+
 def legal(T, lines):
     """the generator's rules (upstream obeys the statement) still hold after removing commands"""
     fd_ok = False
@@ -638,8 +671,10 @@ def legal(T, lines):
         c = l.split()[0]
         if c in ("setfd", "setfdx") and l.split()[1] == T["fdp"]:
             fd_ok = True
-        if c in ("in", "ins") and not fd_ok and T["cls"] != "thru":
+        if c in ("in", "ins", "inpic", "insound") and not fd_ok and T["cls"] != "thru":
             return False
+        if c in FIXED_ALLOC and l in T["alloc"]:
+            continue
     return True
 
 
@@ -657,8 +692,7 @@ def shrink(ctx, binp, wit, tag, rounds=10):
         cands = []
         for k, (key, prop, w, count, x) in enumerate(wit):
             for j in range(len(w.lines) - 2, -1, -1):     # never the last command (reset)
-                if w.lines[j].split()[0] in FIXED or (j == len(w.lines) - 2 and w.lines[-1] == "reset"
-                                                       and False):
+                if w.lines[j].split()[0] in FIXED or (w.lines[j] in w.T["alloc"] and j < 5 + len(w.T["env"]) + len(w.T["alloc"])):
                     continue
                 ls = w.lines[:j] + w.lines[j + 1:]
                 if legal(w.T, ls):
@@ -808,7 +842,7 @@ def make_execs(T, scripts, source):
 def random_script(rng, T, n):
     """A long legal command script for type T (the application and the upstream obey the
     statement: input only after an accepted flow definition, nothing after release)."""
-    lines = ["sink s1", "sink s2", "sink s3"] + list(T["env"]) + list(T["alloc"])
+    lines = ["sink s1", "sink s2", "sink s3", "env fltag on"] + list(T["env"]) + list(T["alloc"])
     pol = {1: True, 2: True, 3: True}
     fd_ok = False
     nin = 0
@@ -822,7 +856,7 @@ def random_script(rng, T, n):
             if fd_ok and (T["data"] or T["cls"] == "thru"):
                 for _ in range(1 + rng.below(3)):
                     nin += 1
-                    lines.append(T["incmd"].format(p=T["inp"], id=nin, size=T["size"]))
+                    lines += in_lines(T, nin)
             else:
                 lines.append("loop 2")
         elif r < 64:
